@@ -272,6 +272,9 @@ def main(argv=None):
                             len(known_hit), cov['distinct_traces'],
                             cov['distinct_nontrivial'],
                             len(resample) - len(mism), len(resample), wall))
+        if cov['generator_errors']['count']:
+            log('note: %d schedules ended early on a generator error (%s)' % (
+                cov['generator_errors']['count'], cov['generator_errors']['first'][0]))
         if rc == 2:
             log('HARNESS-ERROR: result not trustworthy (exit 2)')
     finally:
@@ -313,6 +316,7 @@ def build_evidence(prop, spec, tier, seed, jobs, results, byid, resample,
         for k in gc:
             gc[k] += r.get('gc', {}).get(k, 0)
         steps += r.get('nops', 0)
+    generr = [r.get('generator_error') for r in ok if r.get('generator_error')]
     samples = []
     for i in range(3):
         r = byid.get(i)
@@ -331,6 +335,7 @@ def build_evidence(prop, spec, tier, seed, jobs, results, byid, resample,
         'runs_ok': len(ok),
         'runs_error': len(bad),
         'runs_skipped_budget': skipped,
+        'generator_errors': {'count': len(generr), 'first': generr[:3]},
         'seeds': {'batch_seed': seed, 'first': [j['seed'] for j in jobs[:5]],
                   'derivation': 'H(batch_seed, property, i)'},
         'runs_per_hour': int(len(results) / max(wall, 1e-6) * 3600),
